@@ -73,6 +73,14 @@ Proof.
 Qed.
 Print Assumptions C05_S7_ramp_partial.
 
+(* S6 + S7 composed over the program: after k (ramp, hold) pairs in descending order the number of samples lies within one
+   step per program segment (k ramps, k plateaus) of the continuous program time: tau/dt - k <= N <= tau/dt + 2k *)
+Theorem C05_S6_S7_composed_over_segments : forall cr dt, 0 < cr -> 0 < dt ->
+  forall hs Ts, desc_from Ts hs -> Forall (fun h => 0 <= h_dur h) hs ->
+  ctime cr Ts hs / dt - INR (length hs) <= INR (length (segments Rops Ts cr dt hs)) <= ctime cr Ts hs / dt + 2 * INR (length hs).
+Proof. intros; apply segments_length_bounds; assumption. Qed.
+Print Assumptions C05_S6_S7_composed_over_segments.
+
 (* non-vacuity: the default program with a one-hour hold at -10 C meets the hypotheses *)
 Example C05_nonvacuous : program_ok 20 (-50) (1 / 120) 2 20000 [MkHold (-10) 3600].
 Proof.
